@@ -3,6 +3,8 @@
 # replay = sequential execution for every pointer assignment under the stated guard; refutation witness outside it).
 # Tie: load/store programs through the real mapper, instantiated on every pointer assignment of a small lattice and
 # compared with a bytearray execution (search oracle) and with the model (ordered map structure, vm_compute).
+# A second generator builds memory-to-memory copies (a loaded, still symbolic value stored back or elsewhere after intervening
+# stores) and instantiates them on assignments that make accesses through different pointers equal / overlapping / disjoint.
 import json
 import random
 
@@ -41,6 +43,115 @@ def assignments(rng, count):
         a = BASE + 32 + rng.randrange(0, 8)
         rel = lambda: rng.choice([0, 0, 1, 2, 3, 4, 7, 8, -1, -2, -4, 16, 24, -16])
         out.append({"p": a, "q": a + rel(), "r": a + rel()})
+    return out
+
+
+def gen_copy_program(rng):
+    """memory-to-memory copies: a value is loaded through one pointer, one or more stores are made (preferably through
+    other pointers), the loaded - still symbolic - value is stored back at the place it came from or copied elsewhere,
+    and further loads follow (some of which are stored in turn, so that they reach the final memory).
+    No (pointer, displacement) is stored twice: see classify()."""
+    disp_ = lambda: rng.choice([0, 0, 1, 2, 4, -1, -2, -4, rng.randrange(-8, 9)])
+    size_ = lambda: rng.choice([1, 2, 4, 4, 8])
+    used = set()
+    ops = []
+
+    def store(p, disp, n, src):
+        for _ in range(8):
+            if (p, disp) not in used:
+                break
+            disp = rng.randrange(-8, 9)
+        if (p, disp) in used:
+            return
+        used.add((p, disp))
+        ops.append(("st", p, disp, n, src))
+
+    def some_src(n, regs):
+        if regs and rng.random() < 0.4:
+            return ("reg", rng.choice(regs))
+        return ("cst", rng.getrandbits(8 * n))
+
+    for _ in range(rng.randrange(0, 3)):                       # prefix
+        n = size_()
+        store(rng.choice(PTRS), disp_(), n, some_src(n, DATA))
+    loaded = []                                                # (dreg, ptr, disp, nbytes)
+    free = list(DATA)
+    rng.shuffle(free)
+    for _ in range(rng.choice([1, 1, 2])):                     # the saved values
+        d = free.pop()
+        q, disp, n = rng.choice(PTRS), disp_(), rng.choice([2, 4, 4, 8, 1])
+        ops.append(("ld", d, q, disp, n))
+        loaded.append((d, q, disp, n))
+    q0 = loaded[0][1]
+    others = [x for x in PTRS if x != q0]
+    for _ in range(rng.randrange(1, 4)):                       # intervening stores
+        n = size_()
+        p = rng.choice(others) if rng.random() < 0.8 else q0
+        store(p, disp_(), n, some_src(n, free))
+    for d, q, disp, n in loaded:                               # store back / copy elsewhere
+        mode = rng.random()
+        if mode < 0.5:
+            store(q, disp, n if rng.random() < 0.8 else size_(), ("reg", d))
+        elif mode < 0.8:
+            store(rng.choice(PTRS), disp_(), n if rng.random() < 0.7 else size_(), ("reg", d))
+        else:
+            store(q, max(-8, min(8, disp + rng.choice([-2, -1, 1, 2]))), n, ("reg", d))
+        if rng.random() < 0.3:
+            n2 = size_()
+            store(rng.choice(PTRS), disp_(), n2, some_src(n2, free))
+    for _ in range(rng.randrange(1, 3)):                       # reads after the copy, possibly copied in turn
+        if not free:
+            break
+        d = free.pop()
+        st = [o for o in ops if o[0] == "st"]
+        if rng.random() < 0.7:
+            o = rng.choice(st)
+            p, disp = (o[1], o[2]) if rng.random() < 0.5 else (rng.choice(PTRS), disp_())
+        else:
+            p, disp = rng.choice(PTRS), disp_()
+        n = size_()
+        ops.append(("ld", d, p, disp, n))
+        if rng.random() < 0.5:
+            store(rng.choice(PTRS), disp_(), n, ("reg", d))
+    return ops
+
+
+def accesses(ops):
+    return [(o[1], o[2], o[3]) if o[0] == "st" else (o[2], o[3], o[4]) for o in ops]
+
+
+def directed_assignments(rng, ops, count):
+    """pointer assignments chosen from the program: an access through one pointer and an access through another one are
+    made equal, partially overlapping (every shift), adjacent or disjoint; the third pointer likewise or from the lattice"""
+    acc = accesses(ops)
+    rel = lambda: rng.choice([0, 0, 1, 2, 3, 4, 7, 8, -1, -2, -4, 16, 24, -16])
+    out = []
+    for _ in range(count):
+        a = BASE + 32 + rng.randrange(0, 8)
+        sigma = {"p": a + rel(), "q": a + rel(), "r": a + rel()}
+        order = list(PTRS)
+        rng.shuffle(order)
+        sigma[order[0]] = a
+        for k in (1, 2):
+            y = order[k]
+            mine = [x for x in acc if x[0] == y]
+            theirs = [x for x in acc if x[0] in order[:k]]
+            if not mine or not theirs or rng.random() < 0.15:
+                continue
+            (_, dy, ny), (x, dx, nx) = rng.choice(mine), rng.choice(theirs)
+            mode = rng.random()
+            if mode < 0.35:
+                shift = 0                                      # same first byte
+            elif mode < 0.8:
+                shift = rng.randrange(-(ny - 1), nx)           # at least one common byte
+            elif mode < 0.9:
+                shift = rng.choice([-ny, nx])                  # adjacent
+            else:
+                shift = rng.choice([-ny - 8, nx + 8])          # disjoint
+            v = sigma[x] + dx + shift - dy
+            if -16 <= v - a <= 24:                             # every access stays inside the memory window
+                sigma[y] = v
+        out.append(sigma)
     return out
 
 
@@ -130,9 +241,19 @@ def classify(ops, sigma, endian, memtrace):
         return "memtrace-off"
     if endian == -1:
         return "big-endian-store-replayed-little-endian"
-    starts = [sigma[o[1]] + o[2] for o in ops if o[0] == "st"]
-    if len(starts) != len(set(starts)):
-        return "same-address-stored-twice"
+    # a second store at a (pointer, displacement) already stored to removes the first entry from the ordered map and
+    # re-records it (widened to the earlier size) after the stores made in between: the class is a store through an
+    # other pointer register between two stores at the same (pointer, displacement) that meets their bytes
+    st = [o for o in ops if o[0] == "st"]
+    for i in range(len(st)):
+        for k in range(i + 1, len(st)):
+            if (st[i][1], st[i][2]) != (st[k][1], st[k][2]):
+                continue
+            a, n = sigma[st[i][1]] + st[i][2], max(st[i][3], st[k][3])
+            for j in range(i + 1, k):
+                b = sigma[st[j][1]] + st[j][2]
+                if st[j][1] != st[i][1] and a < b + st[j][3] and b < a + n:
+                    return "same-address-stored-twice"
     return None
 
 
@@ -209,7 +330,10 @@ def check(run):
     run.cov["rule"] = ("load/store program (2..9 ops over pointers p,q,r with displacements -8..8 and access sizes 1..8 bytes, register or "
                        "constant sources) x endianness x (noaliasing, memtrace) x pointer assignments from a lattice (equal, off by 1..7, "
                        "adjacent, disjoint); under noaliasing only assignments without overlap between different pointers; distinct by "
-                       "(program, settings, assignment); non-trivial when >= 2 distinct pointers are used and a load follows a store")
+                       "(program, settings, assignment); non-trivial when >= 2 distinct pointers are used and a load follows a store; "
+                       "plus memory-to-memory copy programs (load through one pointer, 1..3 intervening stores, the loaded value stored "
+                       "back or elsewhere, later loads possibly stored in turn) on assignments making two accesses through different "
+                       "pointers equal / overlapping by every shift / adjacent / disjoint")
     run.static_part()
     cx = c01.Ctx()
     rng = random.Random(run.seed * 313 + 9)
@@ -217,25 +341,22 @@ def check(run):
     nassign = 10 if quick else 30
     finds = {}
     rows = []
-    for _ in range(nprog):
-        ops = gen_program(rng, rng.randrange(2, 10))
-        endian = rng.choice([1, 1, -1])
-        noaliasing = rng.random() < 0.3
-        memtrace = True if not noaliasing else rng.random() < 0.7
+
+    def explore(ops, endian, noaliasing, memtrace, rng, assign, keep_row):
         try:
             m, R, D = run_program(cx, ops, endian, noaliasing, memtrace)
         except Exception as x:
             k = "build-raised|" + type(x).__name__
             finds.setdefault(k, {"ops": ops, "endian": endian, "noaliasing": noaliasing, "memtrace": memtrace, "error": repr(x)})
-            continue
+            return
         finally:
             cx.conf.Cas.noaliasing, cx.conf.Cas.memtrace = True, True
         ptrs_used = {o[1] if o[0] == "st" else o[2] for o in ops}
         nontrivial = len(ptrs_used) >= 2 and any(o[0] == "ld" and any(x[0] == "st" for x in ops[:i]) for i, o in enumerate(ops))
-        if not noaliasing and len(rows) < (400 if quick else 4000):
+        if keep_row and not noaliasing and len(rows) < (400 if quick else 4000):
             sts = [o for o in ops if o[0] == "st"]
             rows.append((sts, ordered_keys(m, R)))
-        for sigma in assignments(rng, nassign):
+        for sigma in assign(ops):
             if noaliasing and overlap_between_bases(ops, sigma):
                 continue
             regs0 = {n: rng.getrandbits(64) for n in DATA}
@@ -264,6 +385,25 @@ def check(run):
                     finds[key] = {"ops": ops, "endian": endian, "noaliasing": noaliasing, "memtrace": memtrace, "sigma": sigma,
                                   "regs0": regs0, "mem0": mem0.hex(), "differences(name,got,want)": bad[:5]}
         run.sample({"ops": ops, "endian": endian, "noaliasing": noaliasing}, 3)
+
+    for _ in range(nprog):
+        ops = gen_program(rng, rng.randrange(2, 10))
+        endian = rng.choice([1, 1, -1])
+        noaliasing = rng.random() < 0.3
+        memtrace = True if not noaliasing else rng.random() < 0.7
+        explore(ops, endian, noaliasing, memtrace, rng, lambda ops: assignments(rng, nassign), True)
+    # memory-to-memory copies with intervening stores, on pointer assignments derived from the program's accesses
+    crng = random.Random(run.seed * 7919 + 909)
+    ncopy = 0
+    for _ in range(120 if quick else 2500):
+        ops = gen_copy_program(crng)
+        endian = crng.choice([1, 1, 1, -1])
+        noaliasing = crng.random() < 0.2
+        memtrace = True if not noaliasing else crng.random() < 0.7
+        explore(ops, endian, noaliasing, memtrace, crng,
+                lambda ops: directed_assignments(crng, ops, nassign) + assignments(crng, nassign // 3), False)
+        ncopy += 1
+    run.cov["copy_programs"] = ncopy
     for k, v in sorted(finds.items()):
         v = shrink(cx, v) if "sigma" in v and "regs0" in v else v
         run.violation(k, "load/store program through symbolic pointers differs from byte-level execution (%s)" % k, v)
